@@ -28,6 +28,7 @@ type Thread struct {
 	resume chan struct{}
 	h, l   int
 	done   bool
+	lib    bool // started by the library (a rewritten go statement, a timer callback)
 }
 
 var (
@@ -239,14 +240,16 @@ func Blocked() {
 }
 
 // Go starts f as a new controlled thread (ids follow creation order, as in the engine).
-func Go(f func()) {
+func Go(f func()) { goThread(f, false) }
+
+func goThread(f func(), lib bool) {
 	mu.Lock()
 	if !active {
 		mu.Unlock()
 		go f()
 		return
 	}
-	t := &Thread{ID: len(thr), resume: make(chan struct{}, 1)}
+	t := &Thread{ID: len(thr), resume: make(chan struct{}, 1), lib: lib}
 	thr = append(thr, t)
 	mu.Unlock()
 	started := make(chan struct{})
@@ -281,9 +284,30 @@ func Go(f func()) {
 // GoLib is what a `go` statement of the library becomes: a new controlled thread plus the
 // library-level scheduling point the engine has at every `go`.
 func GoLib(f func()) {
-	Go(f)
+	goThread(f, true)
 	LPoint()
 }
+
+// Live reports how many library-started controlled threads have not finished (the native
+// counterpart of the engine's census; only meaningful when the library is compiled against the
+// shims, 0 otherwise).
+func Live() int {
+	mu.Lock()
+	defer mu.Unlock()
+	n := 0
+	if !active {
+		return 0
+	}
+	for _, t := range thr {
+		if t.lib && !t.done {
+			n++
+		}
+	}
+	return n
+}
+
+// GoTimer starts a timer callback as a library thread.
+func GoTimer(f func()) { goThread(f, true) }
 
 // Gosched is what runtime.Gosched() of the library becomes (the spin lock): the engine lets
 // another thread run; natively the baton goes where the engine recorded.
